@@ -50,6 +50,8 @@ func init() {
 	probes["O36"] = probeO36
 	probes["O37"] = probeO37
 	probes["O46"] = probeO46
+	probes["O48"] = probeO48
+	probes["O49"] = probeO49
 	probes["O47"] = probeO47
 	probes["O38"] = probePanics(func() { ucfg.New().SetChild("a", -1, nil) })
 	probes["O39"] = probePanics(func() {
@@ -679,5 +681,36 @@ func probeO47() (bool, string) {
 	return guard(func() (bool, string) {
 		err := c.Unpack(&t, ucfg.VarExp)
 		return err == nil, fmt.Sprint(err)
+	})
+}
+
+func probeO48() (bool, string) {
+	return guard(func() (bool, string) {
+		a, b := underOrders(func() string {
+			_, e1 := ucfg.NewFrom(map[string]interface{}{"a": 1, "a.b": 2}, ucfg.PathSep("."))
+			_, e2 := ucfg.NewFrom(map[string]interface{}{"a": 5, "a.0": nil}, ucfg.PathSep("."))
+			r1, r2 := "<nil>", "<nil>"
+			if e1 != nil {
+				r1 = fmt.Sprint(e1.(ucfg.Error).Reason())
+			}
+			if e2 != nil {
+				r2 = fmt.Sprint(e2.(ucfg.Error).Reason())
+			}
+			return r1 + " / " + r2
+		})
+		return a != b, a + " | " + b
+	})
+}
+
+func probeO49() (bool, string) {
+	return guard(func() (bool, string) {
+		a, b := underOrders(func() string {
+			c, _ := ucfg.NewFrom(map[string]interface{}{"a": map[string]interface{}{"x": 1}, "b": "${a}"}, ucfg.VarExp)
+			err := c.Merge(map[string]interface{}{"a": map[string]interface{}{"z": 3}, "b": map[string]interface{}{"y": 2}}, ucfg.VarExp)
+			var m map[string]interface{}
+			c.Unpack(&m, ucfg.VarExp)
+			return fmt.Sprint(err, " b=", m["b"])
+		})
+		return a != b, "sorted / reversed: " + a + " | " + b
 	})
 }
